@@ -69,8 +69,8 @@ func textVariant() string {
 	}
 	s := variantSuffix()
 	if ti := entries()["xterm-256color"]; ti != nil {
-		_, all, left := runFeeds(ti, "GBK", 80, 24, []feed{{[]byte{0xC4}, false}})
-		if len(all) == 0 && left == 1 {
+		_, all, left := runFeeds(ti, "GBK", 80, 24, []feed{{[]byte{0xC4, 0xE3}, false}})
+		if len(all) == 1 && all[0] == "K.256.20320.0" && left == 0 {
 			s += "+eoffix"
 		}
 	}
